@@ -2,6 +2,7 @@ package main
 
 import (
 	"context"
+	"errors"
 	"sync"
 	"sync/atomic"
 
@@ -16,7 +17,27 @@ import (
 type wrapObj struct {
 	body  int
 	abody atomic.Int64
+	mode  string // how the wrapped function ends: "" (succeeds), err, ctxerr / ctxwait, panic (state classes of LockTable!FailClasses)
 	call  func(ctx context.Context, i int)
+}
+
+var errWrapped = errors.New("wrapped function failed")
+
+// end is the tail of every wrapped function: it fails the way the state class says.  In the classes
+// ctxerr / ctxwait the function stays in flight until its context is cancelled (and reports that).
+func (o *wrapObj) end(ctx context.Context) error {
+	switch o.mode {
+	case "err":
+		return errWrapped
+	case "ctxerr", "ctxwait":
+		if ctx != nil {
+			<-ctx.Done()
+			return ctx.Err()
+		}
+	case "panic":
+		panic("wrapped function panics")
+	}
+	return nil
 }
 
 func wr(w *world) *wrapObj { return w.obj.(*wrapObj) }
@@ -28,7 +49,7 @@ func init() {
 	// for every function type: build the wrapped function of the given kind and return how to call it
 	fns := map[string]mkfn{
 		"Operation": func(o *wrapObj, kind string) func(context.Context, int) {
-			f := fun.Operation(func(context.Context) { o.body++ })
+			f := fun.Operation(func(ctx context.Context) { o.body++; _ = o.end(ctx) })
 			switch kind {
 			case "Lock":
 				f = f.Lock()
@@ -37,12 +58,12 @@ func init() {
 			case "Once":
 				f = f.Once()
 			case "Limit":
-				f = fun.Operation(func(context.Context) { o.abody.Add(1) }).Limit(limitN)
+				f = fun.Operation(func(ctx context.Context) { o.abody.Add(1); _ = o.end(ctx) }).Limit(limitN)
 			}
 			return func(ctx context.Context, _ int) { f(ctx) }
 		},
 		"Worker": func(o *wrapObj, kind string) func(context.Context, int) {
-			f := fun.Worker(func(context.Context) error { o.body++; return nil })
+			f := fun.Worker(func(ctx context.Context) error { o.body++; return o.end(ctx) })
 			switch kind {
 			case "Lock":
 				f = f.Lock()
@@ -56,7 +77,7 @@ func init() {
 			return func(ctx context.Context, _ int) { _ = f(ctx) }
 		},
 		"Processor": func(o *wrapObj, kind string) func(context.Context, int) {
-			f := fun.Processor[int](func(_ context.Context, v int) error { o.body += v; return nil })
+			f := fun.Processor[int](func(ctx context.Context, v int) error { o.body += v; return o.end(ctx) })
 			switch kind {
 			case "Lock":
 				f = f.Lock()
@@ -70,7 +91,7 @@ func init() {
 			return func(ctx context.Context, i int) { _ = f(ctx, i) }
 		},
 		"Producer": func(o *wrapObj, kind string) func(context.Context, int) {
-			f := fun.Producer[int](func(context.Context) (int, error) { o.body++; return o.body, nil })
+			f := fun.Producer[int](func(ctx context.Context) (int, error) { o.body++; v := o.body; return v, o.end(ctx) })
 			switch kind {
 			case "Lock":
 				f = f.Lock()
@@ -84,7 +105,7 @@ func init() {
 			return func(ctx context.Context, _ int) { _, _ = f(ctx) }
 		},
 		"Future": func(o *wrapObj, kind string) func(context.Context, int) {
-			f := fun.Future[int](func() int { o.body++; return o.body })
+			f := fun.Future[int](func() int { o.body++; v := o.body; _ = o.end(nil); return v })
 			switch kind {
 			case "Lock":
 				f = f.Lock()
@@ -98,7 +119,7 @@ func init() {
 			return func(context.Context, int) { _ = f() }
 		},
 		"Handler": func(o *wrapObj, kind string) func(context.Context, int) {
-			f := fun.Handler[int](func(v int) { o.body += v })
+			f := fun.Handler[int](func(v int) { o.body += v; _ = o.end(nil) })
 			switch kind {
 			case "Lock":
 				f = f.Lock()
@@ -110,7 +131,7 @@ func init() {
 			return func(_ context.Context, i int) { f(i) }
 		},
 		"Transform": func(o *wrapObj, kind string) func(context.Context, int) {
-			f := fun.Transform[int, int](func(_ context.Context, v int) (int, error) { o.body += v; return o.body, nil })
+			f := fun.Transform[int, int](func(ctx context.Context, v int) (int, error) { o.body += v; r := o.body; return r, o.end(ctx) })
 			switch kind {
 			case "Lock":
 				f = f.Lock()
@@ -142,6 +163,8 @@ func init() {
 					for i := 0; i < limitN+1; i++ {
 						o.call(context.Background(), 1)
 					}
+				case "err", "ctxerr", "ctxwait", "panic":
+					o.mode = class // set before the object is shared, never written afterwards
 				}
 				w.obj = o
 			},
@@ -155,11 +178,19 @@ func init() {
 			if k == "Limit" && ft != "Operation" {
 				classes = []string{"fresh", "exhausted"}
 			}
+			switch ft {
+			case "Worker", "Processor", "Producer", "Transform":
+				classes = append(classes, "err", "ctxerr", "panic")
+			case "Operation":
+				classes = append(classes, "ctxwait", "panic")
+			default:
+				classes = append(classes, "panic")
+			}
 			reg("wrap."+ft+"."+k, ft+"."+k+"()", classes, func(o *wrapObj) func(context.Context, int) { return fns[ft](o, k) })
 		}
 	}
-	reg("wrap.Mnemonize", "Mnemonize()", []string{"fresh", "used"}, func(o *wrapObj) func(context.Context, int) {
-		f := adt.Mnemonize(func() int { o.body++; return o.body })
+	reg("wrap.Mnemonize", "Mnemonize()", []string{"fresh", "used", "panic"}, func(o *wrapObj) func(context.Context, int) {
+		f := adt.Mnemonize(func() int { o.body++; v := o.body; _ = o.end(nil); return v })
 		return func(context.Context, int) { _ = f() }
 	})
 }
